@@ -669,7 +669,6 @@ func checkLinkerRootTest(w *World, r *Result) {
 	}
 }
 
-
 // checkDartHelperFile (AGR-C06j): a generated function calls the JSON helpers named by jsonID(child). Where jsonID
 // *delegates* — for a named type that is not a list or a map it answers with the name of the underlying type's helpers
 // (`intFromJson` for `type ID int64`) — the helper lives in the file of the underlying type (predefined.dart), not in
